@@ -81,7 +81,11 @@ def run_tlc(module: str, cfg: str, name: str, *, workers: int | str = "auto", ti
         cmd += ["-depth", str(depth)]
     if extra:
         cmd += extra
-    cmd += [os.path.join(spec_dir, module + ".tla")]
+    if os.path.isabs(module):
+        cmd += [module]
+        java_opts = (java_opts + " -DTLA-Library=" + SPEC_DIR).strip()
+    else:
+        cmd += [os.path.join(spec_dir, module + ".tla")]
     e = dict(os.environ)
     jo = java_opts
     if dfs:
@@ -92,7 +96,8 @@ def run_tlc(module: str, cfg: str, name: str, *, workers: int | str = "auto", ti
         e.update(env)
     t0 = time.time()
     with open(out_path, "w") as f:
-        p = subprocess.run(cmd, cwd=spec_dir, stdout=f, stderr=subprocess.STDOUT, env=e)
+        p = subprocess.run(cmd, cwd=(os.path.dirname(module) if os.path.isabs(module) else spec_dir),
+                           stdout=f, stderr=subprocess.STDOUT, env=e)
     res = parse_tlc_output(out_path)
     res.rc = p.returncode
     res.wall_s = time.time() - t0
